@@ -38,7 +38,6 @@ Section Complete.
   Hypothesis Hu : unique_names doc = true.
   Variable b : bool.
   Hypothesis HR : forall r, rule_ok_gen b r doc = true.
-  Hypothesis Hau : ok_app_arg_unique doc = true.
   Hypothesis Hne : ok_app_args_nonempty doc = true.
 
   Lemma arg_list_facts l :
@@ -97,11 +96,11 @@ Section Complete.
     pose proof (HR RDirectiveUnknown) as H1. pose proof (HR RDirectiveMisplaced) as H2.
     pose proof (HR RDirectiveRepeated) as H3. pose proof (HR RDirectiveArgs) as H4. cbn [rule_ok_gen] in *.
     unfold ok_directive_unknown in H1. unfold ok_directive_misplaced in H2. unfold ok_directive_repeated in H3.
-    unfold ok_directive_args, ok_directive_args_gen in H4. unfold ok_app_arg_unique in Hau. unfold ok_app_args_nonempty in Hne.
-    rewrite forallb_forall in H1, H2, H3, H4, Hau, Hne.
-    specialize (H1 la Hla). specialize (H2 la Hla). specialize (H3 la Hla). specialize (H4 la Hla). specialize (Hau la Hla). specialize (Hne la Hla).
-    rewrite forallb_forall in H1, H2, H3, H4, Hau, Hne.
-    specialize (H1 a Ha). specialize (H2 a Ha). specialize (H3 a Ha). specialize (H4 a Ha). specialize (Hau a Ha). specialize (Hne a Ha).
+    unfold ok_directive_args, ok_directive_args_gen in H4. unfold ok_app_args_nonempty in Hne.
+    rewrite forallb_forall in H1, H2, H3, H4, Hne.
+    specialize (H1 la Hla). specialize (H2 la Hla). specialize (H3 la Hla). specialize (H4 la Hla). specialize (Hne la Hla).
+    rewrite forallb_forall in H1, H2, H3, H4, Hne.
+    specialize (H1 a Ha). specialize (H2 a Ha). specialize (H3 a Ha). specialize (H4 a Ha). specialize (Hne a Ha).
     destruct (lookup_d doc (iname (dir_name a))) as [def|] eqn:L; [|discriminate].
     exists def. split; [reflexivity|]. split; [exact H2|]. split.
     - pose proof (lookup_d_In _ _ _ L) as [Hdin _].
@@ -111,7 +110,6 @@ Section Complete.
       + pose proof (HR RUnknownType) as H; exact H.
       + pose proof (HR ROutputInInput) as H; exact H.
       + intros ad Had. apply Hfacts. exact Had.
-      + apply nodup_str_NoDup. exact Hau.
       + destruct (dir_args a) as [x|]; [|exact I]. destruct (args_list x); [discriminate | discriminate].
     - intros Hr. rewrite Hr in H3. split; [intros []|]. apply Nat.leb_le. exact H3.
   Qed.
